@@ -8,9 +8,11 @@ import (
 	"fmt"
 	"os"
 	"path/filepath"
+	"reflect"
 	"strings"
 	"sync"
 	"sync/atomic"
+	"time"
 
 	"github.com/risor-io/risor"
 	"github.com/risor-io/risor/builtins"
@@ -141,6 +143,9 @@ type Scenario struct {
 	// Free: every body is a self-contained evaluation (no object shared through Go), so any number of copies
 	// may run at once and each still has to return what it returns alone: the free-running harness compares
 	Free bool
+	// NoExplore: the bodies have thousands of hook points (no schedule enumeration); the scenario is judged by the
+	// comparison of the sequential run with each evaluation alone, and by the free-running pass
+	NoExplore bool
 }
 
 func a() *StructA { return &StructA{F: 41, Name: "x", In: Inner{N: 7}, Items: []int{1, 2}} }
@@ -324,6 +329,22 @@ for i := range 3 { acc += mk(i)()() }
 				}
 			}
 			return []Body{mk(10), mk(20)}
+		}},
+		{Name: "a host that has registered more than a thousand Go types vs an evaluation with byte, time and float-slice globals", Free: true, NoExplore: true, Make: func() []Body {
+			// the package-level converter registry has no bound; whatever a host with a very large API (or one that
+			// builds types with reflect) makes of it, another evaluation converts its own globals as it does alone
+			return []Body{
+				func() string {
+					for n := 1; n <= 1100; n++ {
+						if _, err := object.NewTypeConverter(reflect.ArrayOf(n, reflect.TypeOf(int16(0)))); err != nil {
+							return "error: " + err.Error()
+						}
+					}
+					return "registered"
+				},
+				evalBody(`[type(bs), type(tm), type(fs), type(bf), string(bs)]`, risor.WithGlobal("bs", []byte("abc")), risor.WithGlobal("tm", time.Unix(1700000000, 0).UTC()),
+					risor.WithGlobal("fs", []float64{1.5}), risor.WithGlobal("bf", bytes.NewBufferString("x"))),
+			}
 		}},
 		sharedCode(),
 		clones(),
